@@ -10,7 +10,18 @@ def answer (c : Case) : List String :=
   let k := b.kin Xf.one SV.zero
   -- documented pose: X_F0M0 from the header's definition; a reversed mobilizer gives the inverse motion
   let Xdoc := realizeX b.rev (b.spec.docX0 b.C)
-  [line "X_FM" (xfL Xdoc), line "V_FM" (svL k.V_FM)]
+  -- setUToFitVelocity(target): a reversed node first maps the target into its defining frames (`reverseSpatialVelocity`)
+  let X0 := b.spec.X0 b.C
+  let V0 := findV_F0M0 b.rev k.X_FM c.target
+  let fitU := match b.spec.fitU b.C X0 V0 with
+    | some u => [line "fitU" u]
+    | none => []
+  -- setQToFitTranslation(station) from the default state (forward mobilizers only)
+  let fitQ := if b.rev then [] else
+    match b.spec.fitQtrans c.station with
+    | some q => [line "fitQt" q]
+    | none => []
+  [line "X_FM" (xfL Xdoc), line "V_FM" (svL k.V_FM)] ++ fitU ++ fitQ
 
 def main : IO Unit := do
   let lines ← readStdinLines
